@@ -310,6 +310,12 @@ def handle (st : DState) (line : String) : DState × String :=
     match SeqText.parse (parseNats bytes) with
     | some (es, rest) => (st, " ".intercalate (es.map showElem) ++ "|" ++ showNats rest)
     | none => (st, "none")
+  | ["appendcancel", before, lits] =>
+    -- lits: m<k> a message of k bytes, e the empty literal; before: number of messages in the mailbox
+    let ls : List AppendCancel.Lit := if lits == "-" then [] else (lits.splitOn ",").map (fun t => if t == "e" then .empty else .msg (List.replicate ((t.drop 1).toString.toNat?.getD 0) 0))
+    let r := AppendCancel.doAppend true (List.replicate before.toNat! []) ls
+    (st, (match r.2 with | .ok => "OK" | .no => "NO" | .bad => "BAD") ++ " " ++ toString r.1.length)
+  | ["flagnorm", bytes] => (st, showNats (FlagText.norm (parseNats bytes)))
   | ["done", bytes] =>
     match Done.parseDone (parseNats bytes) with
     | some (d, rest) => (st, (if d then "1" else "0") ++ "|" ++ showNats rest)
